@@ -399,8 +399,14 @@ impl Stdfs {
         // directory traversal that otherwise wouldn't be allowed.
         let m = opts.clone();
         entries = entries.follow(opts.follow).dirs_first().pre_op(move |x| {
+            // A followed link stands for its target, a link itself is never altered
+            let target = match Stdfs::_chmod_target(x, m.follow) {
+                Some(target) => target,
+                None => return Ok(()),
+            };
+            let x = &target;
             let m1 = sys::mode(x, m.dirs, &m.sym)?;
-            if (!x.is_symlink() || m.follow) && x.is_dir() && !sys::revoking_mode(x.mode(), m1) && x.mode() != m1 {
+            if x.is_dir() && !sys::revoking_mode(x.mode(), m1) && x.mode() != m1 {
                 fs::set_permissions(x.path(), fs::Permissions::from_mode(m1))?;
             }
             Ok(())
@@ -408,7 +414,11 @@ impl Stdfs {
 
         // Set permissions on the way out for everything specified
         for entry in entries {
-            let src = entry?;
+            // A followed link stands for its target, a link itself is never altered
+            let src = match Stdfs::_chmod_target(&entry?, opts.follow) {
+                Some(target) => target,
+                None => continue,
+            };
 
             // Compute mode based on octal and symbolic values
             let m2 = if src.is_dir() {
@@ -420,12 +430,31 @@ impl Stdfs {
             };
 
             // Apply permission to entry if set
-            if (!src.is_symlink() || opts.follow) && m2 != src.mode() && m2 != 0 {
+            if m2 != src.mode() && m2 != 0 {
                 fs::set_permissions(src.path(), fs::Permissions::from_mode(m2))?;
             }
         }
 
         Ok(())
+    }
+
+    // The entry chmod has to work on: the entry itself, or for a link when following, the real entry
+    // its chain of links ends at. None for a link that isn't followed or doesn't lead anywhere.
+    fn _chmod_target(entry: &VfsEntry, follow: bool) -> Option<VfsEntry> {
+        if !entry.is_symlink() {
+            return Some(entry.clone());
+        } else if !follow {
+            return None;
+        }
+        let mut target = if entry.following() { entry.path_buf() } else { entry.alt_buf() };
+        for _ in 0..40 {
+            match Stdfs::entry(&target) {
+                Ok(x) if x.is_symlink() => target = x.alt_buf(),
+                Ok(x) => return Some(x),
+                Err(_) => return None,
+            }
+        }
+        None
     }
 
     /// Change the ownership of the path recursivly
